@@ -10,6 +10,71 @@ From PV Require Import Proofs.TargetCoreP Proofs.LifecycleTarget Model.Lifecycle
 Open Scope Z_scope.
 Ltac Zify.zify_post_hook ::= Z.to_euclidean_division_equations.
 
+(* ================================================================ Forward Open sizes, as the target's parsers read them *)
+Definition fo_sizes (fr : bytes) : option (bool * Z * Z) :=
+  match parse_frame fr with
+  | RcOk f =>
+      match f_body f with
+      | BCpf _ AddrNull _ data =>
+          match parse_mr data, msg_effect data with
+          | RcOk rq, EFo l =>
+              match parse_fo l (mr_data rq) with
+              | Some (fo, _) => Some (l, conn_size l (fo_ot_params fo), conn_size l (fo_to_params fo))
+              | None => None
+              end
+          | _, _ => None
+          end
+      | _ => None
+      end
+  | RcErr _ => None
+  end.
+(* extended first with 4000, then standard with the 500-byte size *)
+Definition fo_size_ok (fr : bytes) : Prop :=
+  forall l a b, fo_sizes fr = Some (l, a, b) -> a = b /\ a = (if l then 4000 else 500).
+
+Lemma fo_sizes_effect fr l a b : fo_sizes fr = Some (l, a, b) -> frame_effect fr = EFo l.
+Proof.
+  unfold fo_sizes, frame_effect, parsed_effect. destruct (parse_frame fr) as [f | c]; [| discriminate].
+  destruct (f_body f) as [| | | t ad dt d]; try discriminate. destruct ad; [| discriminate].
+  destruct (parse_mr d); [| discriminate]. destruct (msg_effect d) as [| | | l' |]; try discriminate.
+  destruct (parse_fo l' (mr_data a0)) as [[fo r] |]; [| discriminate]. intros H. inversion H. reflexivity.
+Qed.
+Lemma fo_size_ok_other fr : (forall l, frame_effect fr <> EFo l) -> fo_size_ok fr.
+Proof. intros H l a b E. exfalso. eapply H. eapply fo_sizes_effect. exact E. Qed.
+
+Lemma takez_c1 a r : takez 1 (a :: r) = Some ([a], r).
+Proof. unfold takez. pose proof (blen_nonneg r). rewrite blen_cons. destruct ((0 <=? 1) && (1 <=? 1 + blen r)) eqn:E; [reflexivity | lia]. Qed.
+Lemma takez_c2 a b r : takez 2 (a :: b :: r) = Some ([a; b], r).
+Proof. unfold takez. pose proof (blen_nonneg r). rewrite !blen_cons. destruct ((0 <=? 2) && (2 <=? 1 + (1 + blen r))) eqn:E; [reflexivity | lia]. Qed.
+Lemma takez_c3 a b c r : takez 3 (a :: b :: c :: r) = Some ([a; b; c], r).
+Proof. unfold takez. pose proof (blen_nonneg r). rewrite !blen_cons. destruct ((0 <=? 3) && (3 <=? 1 + (1 + (1 + blen r)))) eqn:E; [reflexivity | lia]. Qed.
+Lemma takez_c4 a b c d r : takez 4 (a :: b :: c :: d :: r) = Some ([a; b; c; d], r).
+Proof. unfold takez. pose proof (blen_nonneg r). rewrite !blen_cons. destruct ((0 <=? 4) && (4 <=? 1 + (1 + (1 + (1 + blen r))))) eqn:E; [reflexivity | lia]. Qed.
+
+(* where a Forward Open request keeps its network connection parameters *)
+Lemma parse_fo_large x0 x1 x2 x3 x4 x5 x6 x7 x8 x9 x10 x11 x12 x13 x14 x15 x16 x17 x18 x19 x20 x21 x22 x23 x24 x25
+  p0 p1 p2 p3 y0 y1 y2 y3 q0 q1 q2 q3 t w r :
+  exists fo, parse_fo true (x0 :: x1 :: x2 :: x3 :: x4 :: x5 :: x6 :: x7 :: x8 :: x9 :: x10 :: x11 :: x12 :: x13 :: x14 :: x15
+                             :: x16 :: x17 :: x18 :: x19 :: x20 :: x21 :: x22 :: x23 :: x24 :: x25
+                             :: p0 :: p1 :: p2 :: p3 :: y0 :: y1 :: y2 :: y3 :: q0 :: q1 :: q2 :: q3 :: t :: w :: r) = Some (fo, r)
+             /\ fo_ot_params fo = le_dec [p0; p1; p2; p3] /\ fo_to_params fo = le_dec [q0; q1; q2; q3].
+Proof.
+  unfold parse_fo, rd.
+  repeat (first [rewrite takez_c4 | rewrite takez_c3 | rewrite takez_c2 | rewrite takez_c1]; cbv beta iota).
+  eexists. split; [reflexivity |]. split; reflexivity.
+Qed.
+Lemma parse_fo_std x0 x1 x2 x3 x4 x5 x6 x7 x8 x9 x10 x11 x12 x13 x14 x15 x16 x17 x18 x19 x20 x21 x22 x23 x24 x25
+  p0 p1 y0 y1 y2 y3 q0 q1 t w r :
+  exists fo, parse_fo false (x0 :: x1 :: x2 :: x3 :: x4 :: x5 :: x6 :: x7 :: x8 :: x9 :: x10 :: x11 :: x12 :: x13 :: x14 :: x15
+                              :: x16 :: x17 :: x18 :: x19 :: x20 :: x21 :: x22 :: x23 :: x24 :: x25
+                              :: p0 :: p1 :: y0 :: y1 :: y2 :: y3 :: q0 :: q1 :: t :: w :: r) = Some (fo, r)
+             /\ fo_ot_params fo = le_dec [p0; p1] /\ fo_to_params fo = le_dec [q0; q1].
+Proof.
+  unfold parse_fo, rd.
+  repeat (first [rewrite takez_c4 | rewrite takez_c3 | rewrite takez_c2 | rewrite takez_c1]; cbv beta iota).
+  eexists. split; [reflexivity |]. split; reflexivity.
+Qed.
+
 Section Inv.
 Context {S : Type} (h : handler S).
 Notation world := (world (S := S)).
@@ -114,6 +179,9 @@ Definition conn_live (w : world) (d : dstate) : Prop :=
                     /\ c_ot_id c = otid /\ c_session c = d_session d.
 
 Definition all_bytes (l : list bytes) : Prop := Forall (fun b => bytes_ok b = true) l.
+(* os.urandom(4) *)
+Definition all_draws (l : list bytes) : Prop := Forall (fun b => bytes_ok b = true /\ List.length b = 4%nat) l.
+Definition size_ok (e : tev) : Prop := match e with TDeliver _ fr _ => fo_size_ok fr | _ => True end.
 
 Record Inv0 (s : st) : Prop := {
   i_queue : w_queue (fst s) = [];
@@ -121,7 +189,10 @@ Record Inv0 (s : st) : Prop := {
   i_fo : fo_trace_ok (w_trace (fst s));
   i_cfg : d_ext (snd s) = true \/ has_refused_large (w_trace (fst s));
   i_bytes : bytes_ok (d_ocid (snd s)) = true /\ bytes_ok (d_vsn (snd s)) = true
-            /\ all_bytes (d_route (snd s)) /\ all_bytes (w_rands (fst s)) }.
+            /\ all_bytes (d_route (snd s)) /\ all_draws (w_rands (fst s));
+  i_sizes : Forall size_ok (w_trace (fst s));
+  i_dsize : (d_ext (snd s) = true /\ d_size (snd s) = 4000) \/ (d_ext (snd s) = false /\ d_size (snd s) = 500);
+  i_len : List.length (d_ocid (snd s)) = 4%nat /\ List.length (d_vsn (snd s)) = 4%nat }.
 Definition iconn (s : st) : Prop :=
   d_tconn (snd s) = true -> w_open (fst s) = true -> w_dead (fst s) = false -> conn_live (fst s) (snd s).
 Definition Inv (s : st) : Prop := Inv0 s /\ iconn s.
@@ -134,9 +205,10 @@ Lemma sent_inv0 s fr nr s' r :
   sent s fr nr s' r -> Inv0 s ->
   (w_open (fst s) = true -> w_dead (fst s) = false -> unitdata_ok (w_t (fst s)) fr) ->
   (frame_effect fr = EFo false -> has_refused_large (w_trace (fst s))) ->
+  fo_size_ok fr ->
   Inv0 s'.
 Proof.
-  intros Hs [Q T F C B] Hud Hfo.
+  intros Hs [Q T F C B Z1 Z2 Z3] Hud Hfo Hsz.
   destruct Hs as [e Hr Hd Ht Htr Hdead Hopen Hq Hrands | e Hr Hd Ht Htr Hdead Hopen Hq Hrands
                  | Hwo Hwd Hd Ht Htr Hdead Hopen Hq Hrands Hreply Hnone].
   - split; rewrite ?Hq, ?Htr, ?Hd, ?Hrands; try reflexivity; assumption.
@@ -144,10 +216,12 @@ Proof.
     + constructor; [exact I | exact T].
     + split; [exact I | exact F].
     + destruct C as [C | C]; [left; exact C | right; apply has_refused_cons; exact C].
+    + constructor; [exact I | exact Z1].
   - split; rewrite ?Hq, ?Htr, ?Hd, ?Hrands; try reflexivity; try assumption.
     + constructor; [apply Hud; assumption | exact T].
     + split; [exact Hfo | exact F].
     + destruct C as [C | C]; [left; exact C | right; apply has_refused_cons; exact C].
+    + constructor; [exact Hsz | exact Z1].
 Qed.
 
 Lemma mem_z_cons x y l : mem_z x l = true -> mem_z x (y :: l) = true.
@@ -155,7 +229,7 @@ Proof. unfold mem_z. cbn [existsb]. intros ->. apply Bool.orb_true_r. Qed.
 
 (* ... and the connection the driver believes in survives every frame that neither unregisters nor closes *)
 Lemma sent_iconn cfg0 s fr nr s' r :
-  sent s fr nr s' r -> Good cfg0 s -> iconn s ->
+  sent s fr nr s' r -> Good h cfg0 s -> iconn s ->
   (d_tconn (snd s) = true -> match frame_effect fr with EUnregister | EFClose => False | _ => True end) ->
   iconn s'.
 Proof.
@@ -166,7 +240,7 @@ Proof.
   - intros _ _ H. discriminate.
   - intros Htc _ _. specialize (Hc Htc Hwo Hwd). specialize (Heff Htc).
     destruct Hc as (Hm & otid & c & Hcid & Hid & Hin & Hot & Hses).
-    pose proof (tstep_effect h (w_t (fst s)) fr (wg_inj _ _ (proj1 G))) as (_ & _ & He).
+    pose proof (tstep_effect h (w_t (fst s)) fr (wg_inj _ _ _ (proj1 G))) as (_ & _ & He).
     destruct (tstep h (w_t (fst s)) fr) as [t' rep]. cbn [fst snd] in *.
     destruct (frame_effect fr) as [| | | large |]; try contradiction.
     + destruct He as [E1 E2]. rewrite E1, E2. split; [exact Hm |]. exists otid, c. auto.
@@ -315,13 +389,13 @@ Context (cfg0 : tcfg) (flt : faults) (Hlate : late_reply_free flt = true).
 
 (* driver-state updates that the invariant does not look at *)
 Definition dsame0 (d d' : dstate) : Prop :=
-  d_ext d' = d_ext d /\ d_ocid d' = d_ocid d /\ d_vsn d' = d_vsn d /\ d_route d' = d_route d.
+  d_ext d' = d_ext d /\ d_ocid d' = d_ocid d /\ d_vsn d' = d_vsn d /\ d_route d' = d_route d /\ d_size d' = d_size d.
 Definition dsamec (d d' : dstate) : Prop :=
   d_session d' = d_session d /\ d_cid d' = d_cid d /\ d_tconn d' = d_tconn d.
 Lemma inv0_dsame (w : world) d d' : dsame0 d d' -> Inv0 (w, d) -> Inv0 (w, d').
 Proof.
-  intros (A4 & A5 & A6 & A7) [Q T F C B]. cbn [fst snd] in *.
-  split; cbn [fst snd]; rewrite ?A4, ?A5, ?A6, ?A7; assumption.
+  intros (A4 & A5 & A6 & A7 & A8) [Q T F C B Z1 Z2 Z3]. cbn [fst snd] in *.
+  split; cbn [fst snd]; rewrite ?A4, ?A5, ?A6, ?A7, ?A8; assumption.
 Qed.
 Lemma iconn_dsame (w : world) d d' : dsamec d d' -> iconn (w, d) -> iconn (w, d').
 Proof.
@@ -335,10 +409,11 @@ Lemma drv_send_inv s fr nr :
   Inv0 s ->
   (w_open (fst s) = true -> w_dead (fst s) = false -> unitdata_ok (w_t (fst s)) fr) ->
   (frame_effect fr = EFo false -> has_refused_large (w_trace (fst s))) ->
+  fo_size_ok fr ->
   (nr = true -> forall t, snd (tstep h t fr) = None) ->
   let r := drv_send h flt s (Ok fr) nr in sent s fr nr (fst r) (snd r) /\ Inv0 (fst r).
 Proof.
-  intros I0 Hud Hfo Hnr. cbv zeta.
+  intros I0 Hud Hfo Hsz Hnr. cbv zeta.
   pose proof (drv_send_sent flt s fr nr Hlate (i_queue _ I0) Hnr) as Hs.
   split; [exact Hs |]. eapply sent_inv0; eassumption.
 Qed.
@@ -354,20 +429,21 @@ Definition delivered_rr (s s' : st) (msg : bytes) (truthy : bool) (value : bytes
     /\ truthy = valid KRR raw /\ value = data_of KRR raw.
 
 Lemma generic_unconnected_inv s msg :
-  Good cfg0 s -> Inv0 s ->
+  Good h cfg0 s -> Inv0 s ->
   (msg_effect msg = EFo false -> has_refused_large (w_trace (fst s))) ->
+  (forall fr, rr_frame (d_session (snd s)) msg = Ok fr -> fo_size_ok fr) ->
   let r := generic_unconnected h flt s msg in
   Inv0 (fst r) /\ snd (fst r) = snd s
   /\ ((d_tconn (snd s) = true -> msg_effect msg <> EFClose) -> iconn s -> iconn (fst r))
   /\ (forall truthy value, snd r = Ok (truthy, value) -> delivered_rr s (fst r) msg truthy value).
 Proof.
-  intros G I0 Hfo. cbv zeta. unfold generic_unconnected.
+  intros G I0 Hfo Hsz. cbv zeta. unfold generic_unconnected.
   destruct (rr_frame (d_session (snd s)) msg) as [fr | e] eqn:Ef.
   2: { cbn [drv_send fst snd]. split; [exact I0 |]. split; [reflexivity |]. split; [auto | discriminate]. }
   pose proof (rr_frame_effect _ _ _ Ef) as Heff.
   assert (frame_effect fr = EFo false -> has_refused_large (w_trace (fst s))) as Hfo'.
   { rewrite Heff. destruct (bytes_ok msg); [exact Hfo | discriminate]. }
-  pose proof (drv_send_inv s fr false I0 (fun _ _ => rr_frame_not_ud _ _ _ Ef _) Hfo' (fun H => ltac:(discriminate))) as (Hs & I1).
+  pose proof (drv_send_inv s fr false I0 (fun _ _ => rr_frame_not_ud _ _ _ Ef _) Hfo' (Hsz fr eq_refl) (fun H => ltac:(discriminate))) as (Hs & I1).
   cbv zeta in *.
   destruct (drv_send h flt s (Ok fr) false) as [s1 r1]. cbn [fst snd] in *.
   assert (snd s1 = snd s) as Hd by (destruct Hs; assumption).
@@ -389,9 +465,59 @@ Qed.
 Lemma inv0_bytes_fields s : Inv0 s -> bytes_fields (snd s).
 Proof. intros [_ _ _ _ (B1 & B2 & B3 & _)]. repeat split; assumption. Qed.
 
+(* the driver's Forward Open frames ask for 4000 (Large) / 500 (standard) in both directions *)
+Lemma fo_frame_size_ok d ses msg fr :
+  fo_message d = Ok msg -> rr_frame ses msg = Ok fr ->
+  ((d_ext d = true /\ d_size d = 4000) \/ (d_ext d = false /\ d_size d = 500)) ->
+  List.length (d_ocid d) = 4%nat -> List.length (d_vsn d) = 4%nat ->
+  fo_size_ok fr.
+Proof.
+  intros Hm Hf Hsz Hlo Hlv l a b E.
+  unfold fo_sizes in E. rewrite (rr_frame_parse _ _ _ Hf) in E.
+  destruct (bytes_ok msg); [| discriminate]. cbn [f_body rr_parsed] in E.
+  unfold fo_message, bind in Hm.
+  destruct (d_ocid d) as [| a0 [| a1 [| a2 [| a3 [| ? ?]]]]] eqn:Eo; try discriminate.
+  destruct (d_vsn d) as [| v0 [| v1 [| v2 [| v3 [| ? ?]]]]] eqn:Ev; try discriminate.
+  destruct Hsz as [[He Hs] | [He Hs]]; rewrite He, Hs in Hm.
+  - replace (net_params true 4000) with (@Ok bytes [160; 15; 0; 66]) in Hm by (vm_compute; reflexivity).
+    unfold epath_len in Hm. destruct (blen (route_bytes d ++ MSG_ROUTER_PATH_BYTES) / 2 <? 256); [| discriminate].
+    apply ok_inj in Hm. subst msg.
+    cbv [render_msg forward_open_msg flat_map field_bytes PRIORITY TIMEOUT_TICKS TIMEOUT_MULTIPLIER TRANSPORT_CLASS CFG_CSN CFG_VID
+         SVC_LARGE_FORWARD_OPEN CM_REQUEST_PATH FO_ROUTE_PAD_LENGTH] in E. rewrite Eo, Ev in E. cbn [app] in E.
+    unfold msg_effect in E. rewrite parse_mr_prefix in E by lia. cbn [mr_path mr_service mr_data] in E.
+    replace (path_cia [32; 6; 36; 1]) with (Some (6, 1, @None Z)) in E by reflexivity. cbn [Z.eqb Pos.eqb] in E.
+    match type of E with context [parse_fo true ?l] =>
+      match l with
+      | ?x0 :: ?x1 :: ?x2 :: ?x3 :: ?x4 :: ?x5 :: ?x6 :: ?x7 :: ?x8 :: ?x9 :: ?x10 :: ?x11 :: ?x12 :: ?x13 :: ?x14 :: ?x15
+        :: ?x16 :: ?x17 :: ?x18 :: ?x19 :: ?x20 :: ?x21 :: ?x22 :: ?x23 :: ?x24 :: ?x25
+        :: ?p0 :: ?p1 :: ?p2 :: ?p3 :: ?y0 :: ?y1 :: ?y2 :: ?y3 :: ?q0 :: ?q1 :: ?q2 :: ?q3 :: ?t :: ?w :: ?r =>
+          destruct (parse_fo_large x0 x1 x2 x3 x4 x5 x6 x7 x8 x9 x10 x11 x12 x13 x14 x15 x16 x17 x18 x19 x20 x21 x22 x23 x24 x25
+                      p0 p1 p2 p3 y0 y1 y2 y3 q0 q1 q2 q3 t w r) as (fo & Hp & Ho & Ht)
+      end
+    end.
+    rewrite Hp, Ho, Ht in E. inversion E; subst. split; reflexivity.
+  - replace (net_params false 500) with (@Ok bytes [244; 67]) in Hm by (vm_compute; reflexivity).
+    unfold epath_len in Hm. destruct (blen (route_bytes d ++ MSG_ROUTER_PATH_BYTES) / 2 <? 256); [| discriminate].
+    apply ok_inj in Hm. subst msg.
+    cbv [render_msg forward_open_msg flat_map field_bytes PRIORITY TIMEOUT_TICKS TIMEOUT_MULTIPLIER TRANSPORT_CLASS CFG_CSN CFG_VID
+         SVC_FORWARD_OPEN CM_REQUEST_PATH FO_ROUTE_PAD_LENGTH] in E. rewrite Eo, Ev in E. cbn [app] in E.
+    unfold msg_effect in E. rewrite parse_mr_prefix in E by lia. cbn [mr_path mr_service mr_data] in E.
+    replace (path_cia [32; 6; 36; 1]) with (Some (6, 1, @None Z)) in E by reflexivity. cbn [Z.eqb Pos.eqb] in E.
+    match type of E with context [parse_fo false ?l] =>
+      match l with
+      | ?x0 :: ?x1 :: ?x2 :: ?x3 :: ?x4 :: ?x5 :: ?x6 :: ?x7 :: ?x8 :: ?x9 :: ?x10 :: ?x11 :: ?x12 :: ?x13 :: ?x14 :: ?x15
+        :: ?x16 :: ?x17 :: ?x18 :: ?x19 :: ?x20 :: ?x21 :: ?x22 :: ?x23 :: ?x24 :: ?x25
+        :: ?p0 :: ?p1 :: ?y0 :: ?y1 :: ?y2 :: ?y3 :: ?q0 :: ?q1 :: ?t :: ?w :: ?r =>
+          destruct (parse_fo_std x0 x1 x2 x3 x4 x5 x6 x7 x8 x9 x10 x11 x12 x13 x14 x15 x16 x17 x18 x19 x20 x21 x22 x23 x24 x25
+                      p0 p1 y0 y1 y2 y3 q0 q1 t w r) as (fo & Hp & Ho & Ht)
+      end
+    end.
+    rewrite Hp, Ho, Ht in E. inversion E; subst. split; reflexivity.
+Qed.
+
 (* CIPDriver._forward_open *)
 Lemma drv_forward_open_inv s :
-  Good cfg0 s -> Inv s ->
+  Good h cfg0 s -> Inv s ->
   let r := drv_forward_open h flt s in
   Inv (fst r) /\ d_ext (snd (fst r)) = d_ext (snd s)
   /\ (snd r = Ok false -> d_ext (snd s) = true -> has_refused_large (w_trace (fst (fst r))))
@@ -407,7 +533,9 @@ Proof.
   destruct (fo_message_effect d msg Em (inv0_bytes_fields _ I0)) as [Hok Heff].
   assert (msg_effect msg = EFo false -> has_refused_large (w_trace w)) as Hfo.
   { rewrite Heff. intros E. destruct (i_cfg _ I0) as [C | C]; [cbn [snd] in C; congruence | exact C]. }
-  pose proof (generic_unconnected_inv (w, d) msg G I0 Hfo) as (I1 & Hd & Hic & Hdel). cbv zeta in *.
+  assert (forall fr, rr_frame (d_session d) msg = Ok fr -> fo_size_ok fr) as Hsz.
+  { intros fr Hfr. eapply fo_frame_size_ok; [exact Em | exact Hfr | exact (i_dsize _ I0) | exact (proj1 (i_len _ I0)) | exact (proj2 (i_len _ I0))]. }
+  pose proof (generic_unconnected_inv (w, d) msg G I0 Hfo Hsz) as (I1 & Hd & Hic & Hdel). cbv zeta in *.
   destruct (generic_unconnected h flt (w, d) msg) as [[w1 d1] r1]. cbn [fst snd] in *. subst d1.
   assert (iconn (w1, d)) as Ic1.
   { apply Hic; [| exact Ic]. intros Ht. congruence. }
@@ -416,7 +544,7 @@ Proof.
   cbn [fst snd] in *.
   pose proof (rr_frame_effect _ _ _ Ef) as Hfe. rewrite Hok, Heff in Hfe.
   pose proof (rr_frame_parse _ _ _ Ef) as Hparse. rewrite Hok in Hparse.
-  pose proof (tstep_effect h (w_t w) fr (wg_inj _ _ (proj1 G))) as (_ & _ & He). rewrite Hfe in He.
+  pose proof (tstep_effect h (w_t w) fr (wg_inj _ _ _ (proj1 G))) as (_ & _ & He). rewrite Hfe in He.
   destruct (tstep h (w_t w) fr) as [t' rep] eqn:Ets. cbn [fst snd] in *. subst rep.
   destruct He as [Hsess [[Hconns Href] | (c & f & raw' & Hp & Hconns & Hcs & Hmem & Hid & Hraw & Hsucc)]].
   - (* refused *)
@@ -439,14 +567,16 @@ Qed.
 Lemma inv_set_fo (s : st) : Inv s -> has_refused_large (w_trace (fst s)) ->
   Inv (fst s, set_fo_cfg FALLBACK_EXTENDED_FO FALLBACK_CONNECTION_SIZE (snd s)).
 Proof.
-  intros [[Q T F C B] Ic] Hr. split.
-  - split; cbn [fst snd set_fo_cfg d_ext d_ocid d_vsn d_route]; try assumption. right. exact Hr.
+  intros [[Q T F C B Z1 Z2 Z3] Ic] Hr. split.
+  - split; cbn [fst snd set_fo_cfg d_ext d_ocid d_vsn d_route d_size]; try assumption.
+    + right. exact Hr.
+    + right. split; reflexivity.
   - destruct s as [w d]. eapply iconn_dsame; [| exact Ic]. repeat split.
 Qed.
 
 (* with_forward_open *)
 Lemma with_forward_open_inv s :
-  Good cfg0 s -> Inv s ->
+  Good h cfg0 s -> Inv s ->
   let r := with_forward_open h flt s in
   Inv (fst r) /\ (snd r = Ok tt -> d_tconn (snd (fst r)) = true).
 Proof.
@@ -460,7 +590,7 @@ Proof.
   set (s2 := (fst s1, set_fo_cfg FALLBACK_EXTENDED_FO FALLBACK_CONNECTION_SIZE (snd s1))).
   assert (Inv s2) as I3 by (apply inv_set_fo; [exact I2 | apply R2; [reflexivity | congruence]]).
   assert (soft s1 s2) as S12 by (apply soft_upd; try reflexivity; cbn; auto).
-  assert (Good cfg0 s2) as G2 by (eapply soft_good; [exact S12 | apply G1 | exact G1]).
+  assert (Good h cfg0 s2) as G2 by (eapply soft_good; [exact S12 | apply G1 | exact G1]).
   pose proof (drv_forward_open_inv s2 G2 I3) as (I4 & _ & _ & T4). cbv zeta in *.
   destruct (drv_forward_open h flt s2) as [s3 r3]. cbn [fst snd] in *.
   destruct r3 as [[|] | e]; cbn [fst snd]; split; try exact I4; try discriminate. intros _. apply T4. reflexivity.
@@ -468,7 +598,7 @@ Qed.
 
 (* one connected request on the connection the driver holds *)
 Lemma connected_request_seq_inv s sq msg :
-  Good cfg0 s -> Inv s -> d_tconn (snd s) = true ->
+  Good h cfg0 s -> Inv s -> d_tconn (snd s) = true ->
   let r := connected_request_seq h flt s sq msg in Inv (fst r) /\ snd (fst r) = snd s.
 Proof.
   intros G [I0 Ic] Et. cbv zeta. unfold connected_request_seq.
@@ -478,7 +608,8 @@ Proof.
   { intros Ho Hd. eapply ud_frame_ok_live; [exact Ef | apply Ic; assumption]. }
   pose proof (ud_frame_effect _ _ _ _ _ Ef) as Heff.
   assert (frame_effect fr = EFo false -> has_refused_large (w_trace (fst s))) as Hfo by (rewrite Heff; discriminate).
-  pose proof (drv_send_inv s fr false I0 Hud Hfo (fun H => ltac:(discriminate))) as (Hs & I1). cbv zeta in *.
+  assert (fo_size_ok fr) as Hsz by (apply fo_size_ok_other; intros l; rewrite Heff; discriminate).
+  pose proof (drv_send_inv s fr false I0 Hud Hfo Hsz (fun H => ltac:(discriminate))) as (Hs & I1). cbv zeta in *.
   assert (iconn (fst (drv_send h flt s (Ok fr) false))) as Ic1.
   { eapply sent_iconn; [exact Hs | exact G | exact Ic |]. intros _. rewrite Heff. exact I. }
   assert (snd (fst (drv_send h flt s (Ok fr) false)) = snd s) as Hd by (destruct Hs; assumption).
@@ -487,14 +618,14 @@ Proof.
 Qed.
 
 Lemma connected_request_inv s msg :
-  Good cfg0 s -> Inv s -> d_tconn (snd s) = true ->
+  Good h cfg0 s -> Inv s -> d_tconn (snd s) = true ->
   let r := connected_request h flt s msg in Inv (fst r) /\ d_tconn (snd (fst r)) = true.
 Proof.
   intros G I1 Et. cbv zeta. unfold connected_request. destruct s as [w d]. cbn [snd] in Et.
   unfold draw. destruct (cycle_step SEQ_STOP SEQ_START (d_seq d)) as [sq v].
   set (d1 := set_seq v d).
   assert (Inv (w, d1)) as I2 by (eapply inv_dsame; [| | exact I1]; repeat split).
-  assert (Good cfg0 (w, d1)) as G2.
+  assert (Good h cfg0 (w, d1)) as G2.
   { eapply soft_good; [| apply G | exact G]. apply (soft_upd (w, d)); try reflexivity. cbn. auto. }
   pose proof (connected_request_seq_inv (w, d1) sq msg G2 I2 Et) as (I3 & Hd). cbv zeta in *.
   unfold connected_request_seq in *. cbn [snd] in *.
@@ -503,7 +634,7 @@ Proof.
 Qed.
 
 Lemma generic_connected_inv s msg :
-  Good cfg0 s -> Inv s -> let r := generic_connected h flt s msg in Inv (fst r).
+  Good h cfg0 s -> Inv s -> let r := generic_connected h flt s msg in Inv (fst r).
 Proof.
   intros G I1. cbv zeta. unfold generic_connected.
   pose proof (with_forward_open_good h cfg0 flt s G) as (G1 & _ & _).
@@ -514,7 +645,7 @@ Proof.
 Qed.
 
 Lemma connected_requests_inv items : forall s,
-  Good cfg0 s -> Inv s -> d_tconn (snd s) = true ->
+  Good h cfg0 s -> Inv s -> d_tconn (snd s) = true ->
   let r := connected_requests h flt s items in Inv (fst r).
 Proof.
   induction items as [| [sq m] rest IH]; intros s G I1 Et; cbv zeta; cbn [connected_requests]; [exact I1 |].
@@ -529,7 +660,7 @@ Proof.
 Qed.
 
 Lemma connected_call_inv s items sa :
-  Good cfg0 s -> Inv s -> let r := connected_call h flt s items sa in Inv (fst r).
+  Good h cfg0 s -> Inv s -> let r := connected_call h flt s items sa in Inv (fst r).
 Proof.
   intros G I1. cbv zeta. unfold connected_call.
   pose proof (with_forward_open_good h cfg0 flt s G) as (G1 & _ & _).
@@ -544,7 +675,7 @@ Qed.
 
 (* ---------------------------------------------------------------- open *)
 Lemma drv_register_session_inv s :
-  Good cfg0 s -> Inv s -> let r := drv_register_session h flt s in Inv (fst r).
+  Good h cfg0 s -> Inv s -> let r := drv_register_session h flt s in Inv (fst r).
 Proof.
   intros G [I0 Ic]. cbv zeta. unfold drv_register_session. destruct s as [w d].
   destruct (negb (d_session d =? 0)) eqn:Es; [split; assumption |].
@@ -554,7 +685,9 @@ Proof.
   2: { cbn [drv_send fst snd]. split; assumption. }
   assert (frame_effect fr = EFo false -> has_refused_large (w_trace w)) as Hfo.
   { intros E. exfalso. destruct (register_frame_effect _ _ Ef) as [E' | E']; congruence. }
-  pose proof (drv_send_inv (w, d) fr false I0 (fun _ _ => register_frame_not_ud _ _ Ef _) Hfo (fun H => ltac:(discriminate))) as (Hs & I1).
+  assert (fo_size_ok fr) as Hsz.
+  { apply fo_size_ok_other. intros l. destruct (register_frame_effect _ _ Ef) as [E' | E']; rewrite E'; discriminate. }
+  pose proof (drv_send_inv (w, d) fr false I0 (fun _ _ => register_frame_not_ud _ _ Ef _) Hfo Hsz (fun H => ltac:(discriminate))) as (Hs & I1).
   cbv zeta in *.
   assert (snd (fst (drv_send h flt (w, d) (Ok fr) false)) = d) as Hd by (destruct Hs; assumption).
   assert (iconn (fst (drv_send h flt (w, d) (Ok fr) false))) as Ic1.
@@ -567,16 +700,16 @@ Proof.
 Qed.
 
 Lemma urandom_inv0 (w : world) d : Inv0 (w, d) ->
-  Inv0 (snd (urandom w), d) /\ bytes_ok (fst (urandom w)) = true /\ w_open (snd (urandom w)) = w_open w
-  /\ w_dead (snd (urandom w)) = w_dead w /\ w_t (snd (urandom w)) = w_t w.
+  Inv0 (snd (urandom w), d) /\ (bytes_ok (fst (urandom w)) = true /\ List.length (fst (urandom w)) = 4%nat)
+  /\ w_open (snd (urandom w)) = w_open w /\ w_dead (snd (urandom w)) = w_dead w /\ w_t (snd (urandom w)) = w_t w.
 Proof.
-  intros [Q T F C (B1 & B2 & B3 & B4)]. cbn [fst snd] in *. unfold urandom.
+  intros [Q T F C (B1 & B2 & B3 & B4) Z1 Z2 Z3]. cbn [fst snd] in *. unfold urandom.
   destruct (w_rands w) as [| r rest] eqn:Er; cbn [fst snd].
   - split; [split; cbn [fst snd]; auto; rewrite Er; auto | auto].
   - inversion B4; subst. split; [split; cbn [fst snd w_queue w_trace w_rands]; auto | auto].
 Qed.
 
-Lemma cip_open_inv s : Good cfg0 s -> Inv s -> let r := cip_open h flt s in Inv (fst r).
+Lemma cip_open_inv s : Good h cfg0 s -> Inv s -> let r := cip_open h flt s in Inv (fst r).
 Proof.
   intros G [I0 Ic]. cbv zeta. unfold cip_open. destruct s as [w d].
   destruct (d_opened d) eqn:Eo; [split; assumption |].
@@ -584,34 +717,36 @@ Proof.
   { destruct G as [_ [D1 D2 D3]]. cbn [fst snd] in *. destruct (d_tconn d) eqn:E; [| reflexivity].
     specialize (D3 (D2 eq_refl)). congruence. }
   destruct G as [W [D1 D2 D3]]. cbn [fst snd] in *.
-  pose proof (sock_connect_w cfg0 flt w W) as W1.
-  destruct I0 as [Q T F C (B1 & B2 & B3 & B4)]. cbn [fst snd] in *.
+  pose proof (sock_connect_w h cfg0 flt w W) as W1.
+  destruct I0 as [Q T F C (B1 & B2 & B3 & B4) Z1 Z2 Z3]. cbn [fst snd] in *.
   unfold sock_connect in *. destruct (flookup (w_nconnect w) (f_connect flt)) as [fk |]; cbn [fst snd] in *.
   { split.
-    - split; cbn [fst snd w_queue w_trace w_rands set_sock d_ext d_ocid d_vsn d_route]; auto.
+    - split; cbn [fst snd w_queue w_trace w_rands set_sock d_ext d_ocid d_vsn d_route d_size]; auto.
       + constructor; [exact I | exact T].
       + split; [exact I | exact F].
       + destruct C as [C | C]; [left; exact C | right; apply has_refused_cons; exact C].
+      + constructor; [exact I | exact Z1].
     - unfold iconn. cbn [fst snd set_sock d_tconn]. rewrite Et. discriminate. }
   set (w1 := mkW _ _ _ _ _ _ _ _ _ _) in *.
   assert (Inv0 (w1, set_sock true d)) as I1.
-  { split; cbn [fst snd w1 w_queue w_trace w_rands set_sock d_ext d_ocid d_vsn d_route]; auto.
+  { split; cbn [fst snd w1 w_queue w_trace w_rands set_sock d_ext d_ocid d_vsn d_route d_size]; auto.
     - constructor; [exact I | exact T].
     - split; [exact I | exact F].
-    - destruct C as [C | C]; [left; exact C | right; apply has_refused_cons; exact C]. }
-  destruct (urandom_inv0 w1 _ I1) as (I2 & Hc & _).
-  pose proof (urandom_w cfg0 w1 W1) as (W2 & O2 & _).
+    - destruct C as [C | C]; [left; exact C | right; apply has_refused_cons; exact C].
+    - constructor; [exact I | exact Z1]. }
+  destruct (urandom_inv0 w1 _ I1) as (I2 & [Hc Hcl] & _).
+  pose proof (urandom_w h cfg0 w1 W1) as (W2 & O2 & _).
   destruct (urandom w1) as [c w2]. cbn [fst snd] in *.
-  destruct (urandom_inv0 w2 _ I2) as (I3 & Hv & _).
-  pose proof (urandom_w cfg0 w2 W2) as (W3 & O3 & _).
+  destruct (urandom_inv0 w2 _ I2) as (I3 & [Hv Hvl] & _).
+  pose proof (urandom_w h cfg0 w2 W2) as (W3 & O3 & _).
   destruct (urandom w2) as [v w3]. cbn [fst snd] in *.
   set (d1 := set_ids c v (set_opened true (set_sock true d))).
   assert (Inv (w3, d1)) as I4.
   { split.
-    - destruct I3 as [Q3 T3 F3 C3 (_ & _ & B33 & B34)]. cbn [fst snd] in *.
-      split; cbn [fst snd d1 set_ids set_opened set_sock d_ext d_ocid d_vsn d_route]; auto.
+    - destruct I3 as [Q3 T3 F3 C3 (_ & _ & B33 & B34) Y1 Y2 Y3]. cbn [fst snd] in *.
+      split; cbn [fst snd d1 set_ids set_opened set_sock d_ext d_ocid d_vsn d_route d_size]; auto.
     - unfold iconn. cbn [fst snd d1 set_ids set_opened set_sock d_tconn]. rewrite Et. discriminate. }
-  assert (Good cfg0 (w3, d1)) as G4.
+  assert (Good h cfg0 (w3, d1)) as G4.
   { split; [exact W3 |]. split; cbn [fst snd d1 set_ids set_opened set_sock d_sock d_tconn d_session d_opened]; auto.
     intros; discriminate. }
   pose proof (drv_register_session_inv (w3, d1) G4 I4) as I5. cbv zeta in I5.
@@ -619,7 +754,7 @@ Proof.
   destruct r2 as [[z |] | e]; exact I5.
 Qed.
 
-Lemma get_plc_info_inv s : Good cfg0 s -> Inv s -> let r := get_plc_info h flt s in Inv (fst r).
+Lemma get_plc_info_inv s : Good h cfg0 s -> Inv s -> let r := get_plc_info h flt s in Inv (fst r).
 Proof.
   intros G [I0 Ic]. cbv zeta. unfold get_plc_info.
   destruct (plc_info_message (snd s) (d_micro (snd s))) as [msg | e] eqn:Em; [| split; assumption].
@@ -629,7 +764,8 @@ Proof.
   pose proof (rr_frame_effect _ _ _ Ef) as Hfe. rewrite Heff in Hfe.
   assert (frame_effect fr = ENone) as Hfe' by (destruct (bytes_ok msg); exact Hfe).
   assert (frame_effect fr = EFo false -> has_refused_large (w_trace (fst s))) as Hfo by (rewrite Hfe'; discriminate).
-  pose proof (drv_send_inv s fr false I0 (fun _ _ => rr_frame_not_ud _ _ _ Ef _) Hfo (fun H => ltac:(discriminate))) as (Hs & I1).
+  assert (fo_size_ok fr) as Hsz by (apply fo_size_ok_other; intros l; rewrite Hfe'; discriminate).
+  pose proof (drv_send_inv s fr false I0 (fun _ _ => rr_frame_not_ud _ _ _ Ef _) Hfo Hsz (fun H => ltac:(discriminate))) as (Hs & I1).
   cbv zeta in *.
   assert (iconn (fst (drv_send h flt s (Ok fr) false))) as Ic1.
   { eapply sent_iconn; [exact Hs | exact G | exact Ic |]. intros _. rewrite Hfe'. exact I. }
@@ -637,7 +773,7 @@ Proof.
   destruct r1 as [[raw |] | e]; cbn [fst snd]; split; assumption.
 Qed.
 
-Lemma get_plc_name_inv s : Good cfg0 s -> Inv s -> let r := get_plc_name h flt s in Inv (fst r).
+Lemma get_plc_name_inv s : Good h cfg0 s -> Inv s -> let r := get_plc_name h flt s in Inv (fst r).
 Proof.
   intros G I1. cbv zeta. unfold get_plc_name.
   pose proof (with_forward_open_good h cfg0 flt s G) as (G1 & _ & _).
@@ -649,7 +785,7 @@ Proof.
   destruct r2 as [[[|] data] | e]; exact I3.
 Qed.
 
-Lemma initialize_driver_inv s : Good cfg0 s -> Inv s -> let r := initialize_driver h flt s in Inv (fst r).
+Lemma initialize_driver_inv s : Good h cfg0 s -> Inv s -> let r := initialize_driver h flt s in Inv (fst r).
 Proof.
   intros G [I0 Ic]. cbv zeta. unfold initialize_driver.
   pose proof (drv_send_good h cfg0 flt s (list_identity_frame (d_session (snd s))) false G (proj2 (proj2 (simple_frames_ok _)))) as (G1 & _ & _).
@@ -658,7 +794,8 @@ Proof.
   2: { cbn [drv_send fst snd]. split; assumption. }
   pose proof (list_identity_frame_effect _ _ Ef) as Hfe.
   assert (frame_effect fr = EFo false -> has_refused_large (w_trace (fst s))) as Hfo by (rewrite Hfe; discriminate).
-  pose proof (drv_send_inv s fr false I0 (fun _ _ => list_identity_frame_not_ud _ _ Ef _) Hfo (fun H => ltac:(discriminate))) as (Hs & I1).
+  assert (fo_size_ok fr) as Hsz by (apply fo_size_ok_other; intros l; rewrite Hfe; discriminate).
+  pose proof (drv_send_inv s fr false I0 (fun _ _ => list_identity_frame_not_ud _ _ Ef _) Hfo Hsz (fun H => ltac:(discriminate))) as (Hs & I1).
   cbv zeta in *.
   assert (iconn (fst (drv_send h flt s (Ok fr) false))) as Ic1.
   { eapply sent_iconn; [exact Hs | exact G | exact Ic |]. intros _. rewrite Hfe. exact I. }
@@ -667,7 +804,7 @@ Proof.
   set (micro := match reply with Some raw => starts_with MICRO800_PREFIX (product_name_of raw) | None => false end).
   set (s2 := (w1, set_micro micro d1)).
   assert (Inv s2) as I2 by (eapply inv_dsame; [| | split; eassumption]; repeat split).
-  assert (Good cfg0 s2) as G2.
+  assert (Good h cfg0 s2) as G2.
   { eapply soft_good; [| apply G1 | exact G1]. apply (soft_upd (w1, d1)); try reflexivity. cbn. auto. }
   pose proof (get_plc_info_good h cfg0 flt s2 G2) as (G3 & _ & _).
   pose proof (get_plc_info_inv s2 G2 I2) as I3. cbv zeta in *.
@@ -688,7 +825,7 @@ Proof.
   - eapply iconn_dsame; [| exact Ic4]. repeat split.
 Qed.
 
-Lemma drv_open_inv logix s : Good cfg0 s -> Inv s -> let r := drv_open h logix flt s in Inv (fst r).
+Lemma drv_open_inv logix s : Good h cfg0 s -> Inv s -> let r := drv_open h logix flt s in Inv (fst r).
 Proof.
   intros G I1. cbv zeta. unfold drv_open. destruct logix; [| apply cip_open_inv; assumption].
   unfold logix_open.
@@ -702,14 +839,16 @@ Proof.
 Qed.
 
 (* ---------------------------------------------------------------- close *)
-Lemma drv_forward_close_inv0 s : Good cfg0 s -> Inv0 s -> let r := drv_forward_close h flt s in Inv0 (fst r).
+Lemma drv_forward_close_inv0 s : Good h cfg0 s -> Inv0 s -> let r := drv_forward_close h flt s in Inv0 (fst r).
 Proof.
   intros G I0. cbv zeta. unfold drv_forward_close. destruct s as [w d].
   destruct (d_session d =? 0); [exact I0 |].
   destruct (fc_message d) as [msg | e] eqn:Em; [| exact I0].
   pose proof (fc_message_effect d msg Em) as Heff.
   assert (msg_effect msg = EFo false -> has_refused_large (w_trace (fst (w, d)))) as Hfo by (rewrite Heff; discriminate).
-  pose proof (generic_unconnected_inv (w, d) msg G I0 Hfo) as (I1 & Hd & _). cbv zeta in *.
+  assert (forall fr, rr_frame (d_session (snd (w, d))) msg = Ok fr -> fo_size_ok fr) as Hsz.
+  { intros fr Hfr. apply fo_size_ok_other. intros l. rewrite (rr_frame_effect _ _ _ Hfr), Heff. destruct (bytes_ok msg); discriminate. }
+  pose proof (generic_unconnected_inv (w, d) msg G I0 Hfo Hsz) as (I1 & Hd & _). cbv zeta in *.
   destruct (generic_unconnected h flt (w, d) msg) as [[w1 d1] r1]. cbn [fst snd] in *. subst d1.
   destruct r1 as [[[|] value] | e]; cbn [fst snd]; try exact I1.
   eapply inv0_dsame; [| exact I1]. repeat split.
@@ -723,17 +862,19 @@ Proof.
   assert (frame_effect fr = EFo false -> has_refused_large (w_trace (fst s))) as Hfo.
   { intros E. exfalso. eapply (frame_effect_not_fo fr); [| exact E].
     unfold unregister_frame in Ef. rewrite (build_request_cmd _ _ _ _ _ Ef). discriminate. }
-  pose proof (drv_send_inv s fr true I0 (fun _ _ => unregister_frame_not_ud _ _ Ef _) Hfo (fun _ => unregister_no_reply _ _ Ef)) as (_ & I1).
+  assert (fo_size_ok fr) as Hsz.
+  { apply fo_size_ok_other. apply frame_effect_not_fo. unfold unregister_frame in Ef. rewrite (build_request_cmd _ _ _ _ _ Ef). discriminate. }
+  pose proof (drv_send_inv s fr true I0 (fun _ _ => unregister_frame_not_ud _ _ Ef _) Hfo Hsz (fun _ => unregister_no_reply _ _ Ef)) as (_ & I1).
   cbv zeta in *. destruct (drv_send h flt s (Ok fr) true) as [s1 r1]. cbn [fst snd] in *.
   destruct r1; exact I1.
 Qed.
 
-Lemma drv_close_inv s : Good cfg0 s -> Inv0 s -> let r := drv_close h flt s in Inv (fst r).
+Lemma drv_close_inv s : Good h cfg0 s -> Inv0 s -> let r := drv_close h flt s in Inv (fst r).
 Proof.
   intros G I0. cbv zeta. unfold drv_close.
   assert (exists s1 r1, (if d_tconn (snd s)
                          then let (sa, ra) := drv_forward_close h flt s in (sa, match ra with Err e => Err e | Ok _ => Ok tt end)
-                         else (s, Ok tt)) = (s1, r1) /\ Good cfg0 s1 /\ Inv0 s1) as (s1 & r1 & E1 & G1 & I1).
+                         else (s, Ok tt)) = (s1, r1) /\ Good h cfg0 s1 /\ Inv0 s1) as (s1 & r1 & E1 & G1 & I1).
   { destruct (d_tconn (snd s)).
     - pose proof (drv_forward_close_good h cfg0 flt s G) as (Ga & _ & _).
       pose proof (drv_forward_close_inv0 s G I0) as Ia. cbv zeta in Ia.
@@ -752,11 +893,12 @@ Proof.
   assert (exists s3 r3, (if d_sock (snd s2) then let (w', rc) := sock_close flt (fst s2) in ((w', snd s2), rc) else (s2, Ok tt)) = (s3, r3)
                         /\ Inv0 s3) as (s3 & r3 & E3 & I3).
   { destruct (d_sock (snd s2)); [| eexists; eexists; split; [reflexivity | exact I2]].
-    destruct I2 as [Q T F C B]. unfold sock_close.
+    destruct I2 as [Q T F C B Z1 Z2 Z3]. unfold sock_close.
     destruct (flookup (w_nclose (fst s2)) (f_close flt)); eexists; eexists; (split; [reflexivity |]);
       (split; cbn [fst snd w_queue w_trace w_rands]; auto;
        [constructor; [exact I | exact T] | split; [exact I | exact F]
-        | destruct C as [C | C]; [left; exact C | right; apply has_refused_cons; exact C]]). }
+        | destruct C as [C | C]; [left; exact C | right; apply has_refused_cons; exact C]
+        | constructor; [exact I | exact Z1]]). }
   rewrite E3.
   assert (Inv (fst s3, reset_driver (snd s3))) as I4.
   { split.
@@ -771,7 +913,7 @@ Definition sop_ok (o : sop) : Prop :=
 Definition op_ok (o : op) : Prop :=
   match o with Simple so => sop_ok so | WithBlock body _ => Forall sop_ok body end.
 
-Lemma exec_sop_inv logix s o : Good cfg0 s -> Inv s -> sop_ok o -> Inv (fst (exec_sop h logix flt s o)).
+Lemma exec_sop_inv logix s o : Good h cfg0 s -> Inv s -> sop_ok o -> Inv (fst (exec_sop h logix flt s o)).
 Proof.
   intros G I1 Hok. destruct o as [| | m | m | items sa]; cbn [exec_sop].
   - pose proof (drv_open_inv logix s G I1) as I2. cbv zeta in I2.
@@ -784,14 +926,16 @@ Proof.
     assert (msg_effect m = ENone) as Heff by (destruct (msg_effect m); try discriminate; reflexivity).
     destruct I1 as [I0 Ic].
     assert (msg_effect m = EFo false -> has_refused_large (w_trace (fst s))) as Hfo by (rewrite Heff; discriminate).
-    pose proof (generic_unconnected_inv s m G I0 Hfo) as (I2 & _ & Hic & _). cbv zeta in *.
+    assert (forall fr, rr_frame (d_session (snd s)) m = Ok fr -> fo_size_ok fr) as Hsz.
+    { intros fr Hfr. apply fo_size_ok_other. intros l. rewrite (rr_frame_effect _ _ _ Hfr), Heff. destruct (bytes_ok m); discriminate. }
+    pose proof (generic_unconnected_inv s m G I0 Hfo Hsz) as (I2 & _ & Hic & _). cbv zeta in *.
     destruct (generic_unconnected h flt s m) as [s1 r1]. cbn [fst snd] in *.
     split; [exact I2 |]. apply Hic; [| exact Ic]. intros _. rewrite Heff. discriminate.
   - pose proof (connected_call_inv s items sa G I1) as I2. cbv zeta in I2.
     destruct (connected_call h flt s items sa) as [s1 r1]. exact I2.
 Qed.
 
-Lemma exec_body_inv logix body : forall s, Good cfg0 s -> Inv s -> Forall sop_ok body ->
+Lemma exec_body_inv logix body : forall s, Good h cfg0 s -> Inv s -> Forall sop_ok body ->
   Inv (fst (fst (exec_body h logix flt s body))).
 Proof.
   induction body as [| o rest IH]; intros s G I1 Hok; cbn [exec_body]; [exact I1 |].
@@ -804,7 +948,7 @@ Proof.
   destruct out; cbn [fst snd]; try exact IH. exact I2.
 Qed.
 
-Lemma exec_op_inv logix s o : Good cfg0 s -> Inv s -> op_ok o -> Inv (fst (exec_op h logix flt s o)).
+Lemma exec_op_inv logix s o : Good h cfg0 s -> Inv s -> op_ok o -> Inv (fst (exec_op h logix flt s o)).
 Proof.
   intros G I1 Hok. destruct o as [so | body raises]; cbn [exec_op].
   - pose proof (exec_sop_inv logix s so G I1 Hok) as I2.
@@ -820,7 +964,7 @@ Proof.
     destruct (drv_close h flt s2) as [s3 r3]. exact I4.
 Qed.
 
-Lemma run_ops_inv logix ops : forall s, Good cfg0 s -> Inv s -> Forall op_ok ops ->
+Lemma run_ops_inv logix ops : forall s, Good h cfg0 s -> Inv s -> Forall op_ok ops ->
   Inv (fst (run_ops h logix flt s ops)).
 Proof.
   induction ops as [| o rest IH]; intros s G I1 Hok; cbn [run_ops]; [exact I1 |].
@@ -834,10 +978,12 @@ Qed.
 End Inv.
 
 Lemma start_inv {S} (h : handler S) (app : S) cfg inj rands route :
-  all_bytes route -> all_bytes rands ->
+  all_bytes route -> all_draws rands ->
   Inv h (init_world (start_target cfg inj app) rands, init_dstate route).
 Proof.
   intros Hr Hn. split.
-  - split; cbn; auto 10.
+  - split; cbn [fst snd init_world init_dstate w_queue w_trace w_rands d_ext d_ocid d_vsn d_route d_size].
+    all: try reflexivity. all: try (constructor; fail). all: try exact I. all: auto.
+    all: try (repeat split; auto; fail). all: try (left; split; reflexivity).
   - unfold iconn. cbn. discriminate.
 Qed.
